@@ -235,6 +235,10 @@ def eval_clause(I, src, env, assumed=False):
         return I.truth(I.eval(parse_expr(src), env))
     except PyRaise as e:
         I.st.notes.setdefault('clause_exceptions', []).append(f"{src[:60]}: {e.exc_type.__name__} (line {e.lineno})")
+        if e.exc_type is NameError:
+            # the clause names something that does not exist here (a local renamed by a refactoring, an invariant
+            # attached to another loop): a defect of the contract, never a verdict about the code
+            raise Unsupported(f"clause refers to a name that is not defined at this point: {src[:80]}")
         if assumed:
             raise Unsupported(f"assumed clause raises {e.exc_type.__name__}: {src[:80]}")
         return False
@@ -409,6 +413,12 @@ def verify_combo(world, c, combo, use_contracts, spec_builtins):
         return out
     seen = set()
     first_only = bool(os.environ.get('PYVC_CANARY_FIRST'))
+    # a changed function can leave many obligations undecided, each costing the full solver budget: once this kind
+    # combination has spent its allowance on obligations that were NOT proved, the remaining ones get short budgets
+    # (they can still be proved or refuted quickly; the contract is undecided or refuted already)
+    allowance = 600.0 if os.environ.get('VERIF_TIER') == 'thorough' else 45.0
+    spent_unproved = 0.0
+    smt.SHORT[0] = False
     for st, outcome in results:
         if first_only and any(i['result'] != 'unsat' for i in out['instances']):
             break
@@ -437,6 +447,10 @@ def verify_combo(world, c, combo, use_contracts, spec_builtins):
                 continue
             seen.add(key)
             r = smt.discharge(vc.pc, goal)
+            if r['result'] != 'unsat':
+                spent_unproved += r['time_s']
+                if spent_unproved > allowance:
+                    smt.SHORT[0] = True
             inst = {'clause': vc.name, 'kind': vc.kind, 'combo': label, 'result': r['result'],
                     'backend': r['backend'], 'time_s': round(r['time_s'], 4), 'info': vc.info}
             if r['result'] == 'sat':
@@ -451,6 +465,7 @@ def verify_combo(world, c, combo, use_contracts, spec_builtins):
             out['instances'].append(inst)
             if first_only and inst['result'] != 'unsat':
                 break
+    smt.SHORT[0] = False
     out['time_s'] = round(time.time() - t0, 3)
     return out
 
@@ -688,6 +703,42 @@ def exec_loop_with_invariant(I, node, env, inv, qn, k):
     I.exec_block(node.orelse, env)
 
 
+def _exec_for_range_with_invariant(I, node, env, inv, qn, k, rng):
+    """`for i in range(lo, hi)` with symbolic bounds under an invariant over the loop variable's next value `__i`
+    (__i = lo at entry, hi at exit; an empty range leaves the state untouched)"""
+    from .interp import _Break, _Continue
+    st = I.st
+    if not isinstance(node.target, ast.Name):
+        raise Unsupported("range loop with an invariant: target must be a name")
+    tname = node.target.id
+    inv_truth = _loop_inv_truth(I, env, inv['inv'])
+    lo = rng.lo
+    hi = z3.If(rng.hi < rng.lo, rng.lo, rng.hi)
+    st.add_vc(f"loop{k}.inv_entry", 'invariant', inv_truth(SInt(lo)), {'level': 'sup', 'function': qn, 'line': node.lineno})
+    modified, heap_mod = _loop_havoc(I, node.body, env, inv, skip=[tname])
+    zi = st.fresh_int('it')
+    st.assume(zi >= lo)
+    in_loop = st.fresh_bool('in_loop')
+    if I.branch(in_loop):
+        st.assume(zi < hi)
+        st.assume(inv_truth(SInt(zi), assumed=True))
+        visible, before = _loop_snapshot(env)
+        env.vars[tname] = SInt(zi)
+        try:
+            I.exec_block(node.body, env)
+        except _Continue:
+            pass
+        except _Break:
+            return
+        st.add_vc(f"loop{k}.inv_preserved", 'invariant', inv_truth(mk_int(zi + 1)),
+                  {'level': 'sup', 'function': qn, 'line': node.lineno})
+        _loop_frame_vcs(I, env, visible, before, modified + [tname], heap_mod, k, qn, node, inv.get('same_object', ()))
+        raise _PathEnd()
+    st.assume(zi == hi)
+    st.assume(inv_truth(SInt(zi), assumed=True))
+    I.exec_block(node.orelse, env)
+
+
 def exec_for_with_invariant(I, node, env, inv, qn, k):
     """`for <target> in <list of symbolic length>` verified with an inductive invariant.
     inv = {'inv': expression over the locals and the index `__i` (number of completed iterations), ...}
@@ -698,15 +749,21 @@ def exec_for_with_invariant(I, node, env, inv, qn, k):
     from . import models
     st = I.st
     itv = I.eval(node.iter, env)
+    rev = False
     if isinstance(itv, EnumSym):
         L, start, enum = itv.lst, itv.start, True
     elif isinstance(itv, SymList):
         L, start, enum = itv, 0, False
+    elif isinstance(itv, RevSym):
+        L, start, enum, rev = itv.lst, 0, False, True
+    elif isinstance(itv, SymRange):
+        return _exec_for_range_with_invariant(I, node, env, inv, qn, k, itv)
     else:
         raise Unsupported("loop invariant on a loop over a concrete-length container")
     inv_truth = _loop_inv_truth(I, env, inv['inv'])
     st.add_vc(f"loop{k}.inv_entry", 'invariant', inv_truth(0), {'level': 'sup', 'function': qn, 'line': node.lineno})
     tnames = [n.id for n in ast.walk(node.target) if isinstance(n, ast.Name)]
+    modified_before = [nm for nm in tnames if not env.lookup(nm)[0]]      # loop variables unbound before the loop
     modified, heap_mod = _loop_havoc(I, node.body, env, inv, skip=tnames)
     zi = st.fresh_int('it')
     st.assume(zi >= 0)
@@ -716,7 +773,7 @@ def exec_for_with_invariant(I, node, env, inv, qn, k):
         st.assume(zi < L.n)
         st.assume(inv_truth(SInt(zi), assumed=True))
         visible, before = _loop_snapshot(env)
-        elem = models.symlist_elem(I, L, zi)
+        elem = models.symlist_elem(I, L, z3.simplify(L.n - 1 - zi) if rev else zi)
         I.assign(node.target, (mk_int(zi + start), elem) if enum else elem, env)
         try:
             I.exec_block(node.body, env)
@@ -731,4 +788,19 @@ def exec_for_with_invariant(I, node, env, inv, qn, k):
     # loop finished: all iterations done
     st.assume(zi == L.n)
     st.assume(inv_truth(SInt(zi), assumed=True))
+    # Python leaves the loop variable bound to the last element; when the function reads it outside the loop the
+    # exit state must say so (else a made-up NameError, or a stale value, would follow)
+    fnode = env.func.node if env.func is not None else None
+    if fnode is not None:
+        inside = {id(n) for n in ast.walk(node)}
+        used_outside = any(isinstance(n, ast.Name) and n.id in tnames and isinstance(n.ctx, ast.Load) and id(n) not in inside
+                           for n in ast.walk(fnode))
+        if used_outside:
+            if I.branch(L.n > 0):
+                last = models.symlist_elem(I, L, z3.IntVal(0) if rev else z3.simplify(L.n - 1))
+                I.assign(node.target, (mk_int(L.n - 1 + start), last) if enum else last, env)
+            else:
+                for nm in tnames:
+                    if nm in modified_before:
+                        env.vars.pop(nm, None)
     I.exec_block(node.orelse, env)
